@@ -541,6 +541,9 @@ def mixweights_rule(P, R):
 def run(P, R, tier):
     mixweights_rule(P, R)
     mixsiblings_rule(P, R)
+    gfwcache_rule(P, R)
+    isoweights_rule(P, R)
+    xstate_rule(P, R)
     unitfamilies_rule(P, R)
     spreaddefaults_rule(P, R)
     gfw_rule(P, R)
@@ -728,3 +731,139 @@ def mixsiblings_rule(P, R):
             R.ok(RULE, inst, "%s assigned (the unused sibling is not)" % passed)
     if n < 3:
         R.anchor_missing(RULE, "add_mix: only %d blocks assign the weights" % n)
+
+
+def gfwcache_rule(P, R):
+    """"Expressing concentrations in different supported units": mass units are converted with the formula weight of the `as` formula (or of
+    the element), which compute_gfw caches per formula string in gfw_map.  The cached weights are sums of element::gfw; the one function
+    that assigns element weights from input, read_master_species, must empty the cache on every path, otherwise `Ca 40.078 mg/kgw` after a
+    SOLUTION_MASTER_SPECIES block that changes the weight of Ca is converted with the old weight while `gfw 40.078` uses the new one."""
+    RULE = "C15.gfwcache"
+    R.rule(RULE, "every function that assigns element::gfw from input empties the formula-weight cache gfw_map on every path", minimum=1)
+    users = [g for g in P.functions.values() if any(y[0] == "Member" and y[2] == "Phreeqc::gfw_map" for y in T.walk(g["body"]))]
+    if not any(g["q"] == "Phreeqc::compute_gfw" for g in users):
+        R.anchor_missing(RULE, "compute_gfw no longer caches in gfw_map")
+        return
+    n = 0
+    for k, g in sorted(P.functions.items(), key=lambda kv: kv[1]["q"]):
+        if not g["q"].startswith("Phreeqc::read_"):
+            continue
+        # weights taken from the input text: scanned (sscanf(&elt->gfw)) or assigned from a non-literal; `gfw = 0.0` of an exchange master is a constant
+        sets = [line for t, how, line, w in T.writes(g["body"]) if T.access_path(t)[1][-1:] == [("f", "element::gfw")] and (
+            how == "addr" or (how == "=" and T.lit_value(T.strip_casts(w[4])) is None and not (T.is_node(T.strip_casts(w[4])) and T.strip_casts(w[4])[0] == "Lit")))]
+        if not sets:
+            continue
+        n += 1
+        cfg = T.CFG(g)
+        dom = cfg.dominators()
+        clears = [nd["id"] for nd in cfg.nodes if T.is_node(nd["n"]) and any(
+            T.callee_name(c) == "clear" and T.call_obj(c) is not None and any(y[0] == "Member" and y[2] == "Phreeqc::gfw_map" for y in T.walk(T.call_obj(c))) for c in T.calls(nd["n"]))]
+        inst = g["q"].split("::")[-1]
+        if any(c in dom.get(cfg.exit, ()) for c in clears):
+            R.ok(RULE, inst, "gfw_map.clear() on every path")
+        else:
+            R.violation(RULE, inst, "%s assigns element weights (line %d) but does not empty gfw_map on every path: formula weights cached before keep the old atomic weights, so a "
+                        "concentration in mass units and the same concentration with an explicit gfw give different molalities" % (g["q"], sets[0]), file=g["file"], line=sets[0], function=g["q"])
+    if n < 1:
+        R.anchor_missing(RULE, "no reader assigns element::gfw")
+
+
+def isoweights_rule(P, R):
+    """"Mixing a solution with itself ... gives the same results": cxxSolution::add combines intensive properties as f1 * here + f2 * added.
+    Add_isotopes does the same for the isotope ratios: for each intensive isotope member (ratio, ratio_uncertainty) the value stored is
+    built in a local from Get_<m>() of the entry already there and Get_<m>() of the added entry; with both set to 1 the result must be 1
+    (the weights sum to one) - evaluated symbolically on the statements of the function (engine/ratfun.py)."""
+    from .. import ratfun as RF
+    from fractions import Fraction
+    RULE = "C15.isoweights"
+    R.rule(RULE, "Add_isotopes: the weights of the ratio already accumulated and of the added ratio sum to one", minimum=2)
+    f = P.one("cxxSolution::Add_isotopes")
+    wname = f["pnames"][1] if len(f.get("pnames", [])) > 1 else "intensive"
+
+    def conv(n, env):
+        n = T.strip_casts(n)
+        if n[0] == "Paren":
+            return conv(n[2], env)
+        if n[0] == "Lit":
+            return RF.Rat.const(Fraction(str(n[3]).rstrip("fFlL")))
+        if n[0] == "Ref" and n[2] == "local" and n[3] in env:
+            return env[n[3]]
+        if n[0] == "Ref" and n[2] == "param":
+            return RF.Rat.sym(n[3])
+        if n[0] == "Call" and (T.callee_name(n) or "").startswith("Get_"):
+            return RF.Rat.const(Fraction(1))          # both ratios set to 1
+        if n[0] == "Bin" and n[2] in ("+", "-", "*", "/"):
+            a, b = conv(n[3], env), conv(n[4], env)
+            return a + b if n[2] == "+" else a - b if n[2] == "-" else a * b if n[2] == "*" else a / b
+        raise RF.NotRational(T.text(n)[:40])
+    n_ = 0
+    for comp in T.walk(f["body"]):
+        if comp[0] != "Compound":
+            continue
+        env = {}
+        for st in comp[2]:
+            if not T.is_node(st):
+                continue
+            try:
+                if st[0] == "Bin" and st[2] in ("=", "+=") and T.is_node(T.strip_casts(st[3])) and T.strip_casts(st[3])[0] == "Ref" and T.strip_casts(st[3])[2] == "local":
+                    v = T.strip_casts(st[3])[3]
+                    val = conv(st[4], env)
+                    env[v] = val if st[2] == "=" else env[v] + val
+                elif st[0] == "Call" and T.callee_name(st) in ("Set_ratio", "Set_ratio_uncertainty") and st[4]:
+                    n_ += 1
+                    val = conv(st[4][0], env)
+                    inst = "%s@%d" % (T.callee_name(st)[4:], st[1])
+                    if val.same(RF.Rat.const(Fraction(1))):
+                        R.ok(RULE, inst, "weights sum to one")
+                    else:
+                        R.violation(RULE, inst, "with both ratios equal to 1 Add_isotopes stores a value that is not 1 (the accumulated ratio is not weighted with 1 - %s): mixing identical "
+                                    "solutions changes their isotope ratio" % wname, file=f["file"], line=st[1], function=f["q"])
+            except (RF.NotRational, KeyError):
+                continue
+    if n_ < 2:
+        R.anchor_missing(RULE, "Add_isotopes: only %d intensive isotope members evaluated" % n_)
+
+
+def xstate_rule(P, R):
+    """"Renumbering entities ... gives the same results": what xsolution_save stores with a solution must come from the solutions the
+    calculation was made from.  Every engine member `<name>_x` that xsolution_save reads is calculation state: xsolution_zero, which
+    starts every combination of solutions, must reset it, and a member that the solver does not recompute (a container such as
+    isotopes_x) must be filled by add_solution.  A member that only initial_solutions assigns holds the data of the initial solution
+    calculated last - the saved result then depends on the order and numbering of the definitions."""
+    RULE = "C15.xstate"
+    R.rule(RULE, "every <name>_x member stored by xsolution_save is reset by xsolution_zero; containers among them are filled by add_solution", minimum=10)
+    sv, zero, add = P.one("Phreeqc::xsolution_save"), P.one("Phreeqc::xsolution_zero"), P.one("Phreeqc::add_solution")
+    mems = []
+    for x in T.walk(sv["body"]):
+        if x[0] == "Member" and T.is_node(x[3]) and x[3][0] == "This" and x[2].endswith("_x") and x[2] not in [m for m, _ in mems]:
+            mems.append((x[2], str(x[4])))
+
+    def written(fn, m):
+        for t, how, line, w in T.writes(fn["body"]):
+            root, steps = T.access_path(t)
+            if steps and steps[0] == ("f", m) and how != "ref":
+                return line
+        return None
+    for m, ty in mems:
+        inst = m.split("::")[-1]
+        z = written(zero, m)
+        if z is None:
+            # the other per-calculation starters: prep() takes the description of the solution in use, free_model_allocs() empties the
+            # species list that the next model build refills
+            alt = [(q, written(P.one(q), m)) for q in ("Phreeqc::prep", "Phreeqc::free_model_allocs")]
+            alt = [(q, l) for q, l in alt if l is not None]
+            if alt:
+                R.ok(RULE, inst, "set for every calculation by %s (line %d)" % alt[0])
+                continue
+            R.violation(RULE, inst, "%s is stored by xsolution_save but not reset by xsolution_zero: a saved solution carries the value of an earlier calculation" % m,
+                        file=zero["file"], line=zero["line"], function=zero["q"])
+            continue
+        if "std::map" in ty or "std::vector" in ty:
+            a = written(add, m)
+            if a is None:
+                R.violation(RULE, inst, "%s (%s) is stored by xsolution_save and never filled by add_solution: the saved solution does not carry the data of the solutions it was made "
+                            "from" % (m, ty[:40]), file=add["file"], line=add["line"], function=add["q"])
+                continue
+            R.ok(RULE, inst, "reset (line %d) and filled by add_solution (line %d)" % (z, a))
+        else:
+            R.ok(RULE, inst, "reset by xsolution_zero (line %d)" % z)
